@@ -147,4 +147,46 @@ package main
 //@   ensures [strictly-in-the-future] result1 ==> result > uint64(nowMs / 1000)
 //@   ensures [second-of-the-deadline-unless-rounded-up] result1 ==> result == uint64((nowMs + (seconds ? num * 1000 : num)) / 1000) || result == uint64(nowMs / 1000) + 1
 //@   ensures [rounded-up-only-inside-the-current-second] result1 && result != uint64((nowMs + (seconds ? num * 1000 : num)) / 1000) ==> uint64((nowMs + (seconds ? num * 1000 : num)) / 1000) <= uint64(nowMs / 1000)
+//@   tag ghost-pure
 //@   modifies nothing
+
+// SET command kernel (C29): whatever the options, the gateway answers +OK or the nil
+// reply (NX/XX condition not met) only after it handed the write to the backend exactly
+// once; a syntax or expiry error answers without touching the backend; NX and XX never
+// reach the backend together. (An expiry that already lies in the past - EXAT 1 - is still
+// a write: the previous value must be replaced by an expired one, and NX/XX still decide.)
+// The reply writers and the backend are trusted leaves that count their calls.
+//@ ghost var backendSets Int
+//@ ghost var lastSetNX bool
+//@ ghost var lastSetXX bool
+//@ ghost var okReplies Int
+//@ ghost var nilReplies Int
+//@ func (redisBackend).Set
+//@   trusted
+//@   ghost backendSets = backendSets + 1
+//@   ghost lastSetNX = args.NX
+//@   ghost lastSetXX = args.XX
+//@   modifies nothing
+//@ func writeSimpleString
+//@   trusted
+//@   ghost okReplies = okReplies + 1
+//@   modifies nothing
+//@ func writeNil
+//@   trusted
+//@   ghost nilReplies = nilReplies + 1
+//@   modifies nothing
+//@ func (*redisServer).respondError
+//@   trusted
+//@   modifies nothing
+//@ func time::(Time).UnixMilli
+//@   trusted
+//@   ensures [clock-after-1970] result >= 0
+//@   modifies nothing
+//@ func (*redisServer).execSet
+//@   property C29
+//@   requires s != nil && len(args) >= 2
+//@   ensures [ok-only-after-the-backend-stored] okReplies > old(okReplies) ==> backendSets == old(backendSets) + 1
+//@   ensures [nil-reply-only-from-the-backend] nilReplies > old(nilReplies) ==> backendSets == old(backendSets) + 1
+//@   ensures [at-most-one-store-and-one-reply] backendSets <= old(backendSets) + 1 && okReplies + nilReplies <= old(okReplies) + old(nilReplies) + 1
+//@   ensures [nx-and-xx-never-together] backendSets > old(backendSets) ==> !(lastSetNX && lastSetXX)
+//@   loop 1 invariant [parsing-touches-nothing] s != nil && 2 <= i && backendSets == old(backendSets) && okReplies == old(okReplies) && nilReplies == old(nilReplies) && !(nx && xx)
